@@ -34,7 +34,7 @@ def obligations(tier):
                   bounds="real section parsers on a concrete chart, symbolic header choice / order / newline style"))
     obs.append(Ob("C06.crlf_file_scale", "CH", "harness.h_chart", "crlf_file_scale", 1500, funcs=("chartparse.chart.Chart.from_file", "chartparse.chart.Chart._partition_lines_by_data_section"),
                   bounds="a 130 000-character chart (all 40 tracks) in which the CR of a closing brace / opening brace / header / body line is character number 2^k or 2*2^k "
-                         "(k in 10,12..17), solver-chosen case, native execution: the CRLF parse equals the LF parse"))
+                         "(k in 10,12..17), and an LF rendering whose LF is that character, solver-chosen case, native execution: the CRLF parse equals the LF parse, nothing lost"))
     return obs
 
 
